@@ -29,7 +29,7 @@ man = {
     "setup_cmd": "cd /verif/govc && GOFLAGS=-mod=vendor GOPROXY=off go build -o /verif/bin/govc .",
     "hooks": {
         "guard": "verif",
-        "enable": "go build/go list with -tags verif: adds the comment-only <pkg>/contracts_verif.go files (contracts as //@ comments, no executable code)",
+        "enable": "go build/go list with -tags verif: adds the <pkg>/contracts_verif.go files: contracts as //@ comments, plus ghost code that exists only under the tag (harness functions composing real functions, trusted stubs for third-party calls, accessors for unexported fields); nothing in the untagged build changes",
         "baseline_off_cmd": "cd /repo && GOFLAGS=-mod=mod GOPROXY=off go test -vet=off -count=1 ./...",
         "source_commits": hook_commits,
         "add_only": True,
